@@ -322,6 +322,8 @@ TARGETED = [
     'call = { name ~ "(" ~ args? ~ ")" }\nname = { "f" }\nargs = { (arg ~ ("," ~ arg)*)? }\narg = { "1" }\ntail = { "x"* }\nm = { "y" ~ tail? }\nend = { "a" ~ EOI? }',
     # insensitive / ranges / multi-byte
     'kw = @{ ^"ab" }\nwords = @{ (^"from" | ANY)* }\nrg = @{ \'b\'..\'d\' ~ \'a\'..\'a\' }\nmb = @{ "é" ~ "=" ~ "éé" }',
+    # case-insensitive literals with non-ASCII letters fold ASCII letters only (pest: eq_ignore_ascii_case)
+    'list = { entry ~ ("," ~ entry)* }\nentry = { kw | word }\nkw = { ^"\u00e9a" }\nword = @{ (!"," ~ ANY)+ }',
     # SOI / EOI inside, optional sign at SOI
     'file = { SOI ~ "b"+ ~ EOI }\nnum = @{ (SOI ~ "-")? ~ ASCII_DIGIT* }\ninner = @{ !SOI ~ ANY }\nmid = { "a" ~ EOI ~ "b"? }',
 ]
